@@ -32,6 +32,9 @@
 (*   "lookup_cache_by_name"  within one template body a placeholder name   *)
 (*                         keeps meaning the node found for it first,      *)
 (*                         also in a later, different message              *)
+(*   "resume_after_close_brace"  the catalogue-string tokeniser, on a "{"    *)
+(*                         that does not open a placeholder, resumes after *)
+(*                         the next "}" instead of after the "{"           *)
 (*   "builtin_rule_wins"   the plural form is selected by the built-in     *)
 (*                         rule of the catalogue's locale instead of the   *)
 (*                         rule its Plural-Forms header declares           *)
@@ -158,6 +161,26 @@ POPartsFrom(s, i, txt, acc) ==
 
 POParts(s) == POPartsFrom(s, 1, "", <<>>)
 
+\* The tokeniser as the LOADER runs it.  Reference: the one above -- a
+\* placeholder is exactly "{" [A-Z0-9_]+ "}", found leftmost; any other "{" is
+\* one character of text and scanning goes on right behind it.
+RECURSIVE PONextClose(_, _)
+PONextClose(s, j) == IF j > Len(s) THEN 0 ELSE IF MsgCh(s, j) = "}" THEN j ELSE PONextClose(s, j + 1)
+
+RECURSIVE POPartsSkipping(_, _, _, _)
+POPartsSkipping(s, i, txt, acc) ==       \* the deviation
+  IF i > Len(s) THEN POPush(acc, txt)
+  ELSE IF MsgCh(s, i) = "{" THEN
+         LET k == PONextClose(s, i + 1) IN
+         IF k = 0 THEN POPush(acc, txt \o MsgSuffixStr(s, i))
+         ELSE IF k > i + 1 /\ PONameEnd(s, i + 1) = k
+              THEN POPartsSkipping(s, k + 1, "", Append(POPush(acc, txt), POPh(SubSeq(s, i + 1, k - 1))))
+              ELSE POPartsSkipping(s, k + 1, txt \o SubSeq(s, i, k), acc)
+  ELSE POPartsSkipping(s, i + 1, txt \o MsgCh(s, i), acc)
+
+POPartsLoad(s) ==
+  IF "resume_after_close_brace" \in PODev THEN POPartsSkipping(s, 1, "", <<>>) ELSE POParts(s)
+
 RECURSIVE POUnparts(_)
 POUnparts(q) ==
   IF q = <<>> THEN ""
@@ -194,8 +217,8 @@ POTranslate(strategy, e, loc) ==
 (* plain.)                                                                 *)
 (***************************************************************************)
 POLoad(e, strs) ==
-  IF e.var = "" /\ Len(strs) = 1 THEN [plural |-> FALSE, parts |-> POParts(strs[1])]
-  ELSE [plural |-> TRUE, var |-> e.var, forms |-> [i \in 1..Len(strs) |-> POParts(strs[i])]]
+  IF e.var = "" /\ Len(strs) = 1 THEN [plural |-> FALSE, parts |-> POPartsLoad(strs[1])]
+  ELSE [plural |-> TRUE, var |-> e.var, forms |-> [i \in 1..Len(strs) |-> POPartsLoad(strs[i])]]
 
 (***************************************************************************)
 (* Rendering.  Outcomes: [t|->"out", s] | [t|->"err"] | [t|->"unspec"].    *)
@@ -367,6 +390,14 @@ POCaseSets  == << <<1>>, <<0, 1>>, <<2>>, <<>> >>      \* only the first is PO-r
 
 POFamFlat(n) == {[kind |-> "flat", ix |-> ix] : ix \in MsgIxSeqs(n, Len(PoolC11))}
 
+\* literal braces and things that look like placeholders but are not, next to
+\* real placeholders ({lb} / {rb} in the source; "{1X}" and the like, which ARE
+\* names of the catalogue syntax, cannot be told from placeholders by design and
+\* are left out)
+POBracePool == << MText("{"), MText("}"), MText("{}"), MText("{lower} "), MText("{A B}"), MText(", 3"),
+                  PoolC11[3], PoolC11[1], PoolC11[5] >>
+POFamBrace(n) == {[kind |-> "brace", ix |-> ix] : ix \in MsgIxSeqs(n, Len(POBracePool)) \ {<<>>}}
+
 \* representable plurals: case 1 + default, non-empty bodies of <= n parts
 POFamPlural(n) ==
   LET bodies == MsgIxSeqs(n, Len(POInnerPool)) \ {<<>>} IN
@@ -388,6 +419,7 @@ POFamExtra == {[kind |-> "extra", i |-> i] : i \in 1..Len(POExtraBodies)}
 
 POFamBody(d) ==
   IF d.kind = "flat" THEN MsgPick(PoolC11, d.ix)
+  ELSE IF d.kind = "brace" THEN MsgPick(POBracePool, d.ix)
   ELSE IF d.kind = "extra" THEN POExtraBodies[d.i]
   ELSE << MPlural(POSubjects[d.subj],
                   [i \in 1..Len(d.cb) |-> MCase(POCaseSets[d.cs][i], MsgPick(POInnerPool, d.cb[i]))],
@@ -395,6 +427,7 @@ POFamBody(d) ==
 
 POFamId(d) ==
   IF d.kind = "flat" THEN "F" \o MsgIxStr(d.ix)
+  ELSE IF d.kind = "brace" THEN "B" \o MsgIxStr(d.ix)
   ELSE IF d.kind = "extra" THEN "X" \o ToString(d.i)
   ELSE "P" \o ToString(d.subj) \o "c" \o ToString(d.cs) \o ":" \o MsgIxStrs(d.cb) \o "d" \o MsgIxStr(d.db)
 
@@ -404,7 +437,7 @@ POSumSeq(q) == IF q = <<>> THEN 0 ELSE Head(q) + POSumSeq(Tail(q))
 RECURSIVE POSumSeqs(_)
 POSumSeqs(q) == IF q = <<>> THEN 0 ELSE POSumSeq(Head(q)) + POSumSeqs(Tail(q))
 POShardOf(d, nshards) ==
-  IF d.kind = "flat" THEN POSumSeq(d.ix) % nshards
+  IF d.kind \in {"flat", "brace"} THEN POSumSeq(d.ix) % nshards
   ELSE IF d.kind = "extra" THEN d.i % nshards
   ELSE (d.subj + d.cs + POSumSeqs(d.cb) + POSumSeq(d.db)) % nshards
 
